@@ -77,6 +77,29 @@ func judgeC02(rep *core.Report, fi *FuncInfo, recs []*execmon.Rec) {
 			break
 		}
 	}
+	// "after only the OPTED-IN String()/type conversion": a type conversion in the observed plan
+	// (scalar or slice elements) needs :typecast in the method's effective options
+	if !fi.Opts.Typecast {
+		for i := range fi.Plan.Items {
+			it := &fi.Plan.Items[i]
+			what := ""
+			switch {
+			case it.Kind == "slice" && it.SliceMode == "cast":
+				what = "slice elements converted to " + it.SliceCast
+			case it.Kind == "assign" && it.RHS != nil:
+				for x := it.RHS; x != nil; x = x.X {
+					if x.Op == "conv" {
+						what = "conversion " + x.Text
+					}
+				}
+			}
+			if what != "" {
+				rep.Violate(&core.Violation{Property: "C02", Monitor: "plan", Symptom: "conversion-without-opt-in", Features: mf, Case: c.S.ID,
+					Detail: "generated function " + fi.Plan.Key() + " converts without :typecast in force: dst." + it.PathStr() + ": " + what + " (" + it.Text + ")", Files: c.ReplayFiles()})
+				break
+			}
+		}
+	}
 	seen := map[string]bool{}
 	for _, r := range recs {
 		if r.Fail != "" {
